@@ -393,7 +393,7 @@ func (r *Resolver) onSetOrList(g *Scope, name string, t *parser.Type, v *parser.
 			if err != nil {
 				return "", err
 			}
-			ss = append(ss, str+",")
+			ss = append(ss, r.elemValue(g, t.ValueType, str)+",")
 		}
 		if len(ss) == 0 {
 			return goType + "{}", nil
@@ -409,6 +409,18 @@ func (r *Resolver) onSetOrList(g *Scope, name string, t *parser.Type, v *parser.
 	}
 	// fault tolerance
 	return goType + "{}", nil
+}
+
+// elemValue adapts the code of a container element: a struct literal is written `&T{...}`,
+// but with value_type_in_container the elements of a container are values, not pointers.
+func (r *Resolver) elemValue(g *Scope, t *parser.Type, code string) string {
+	if t.Category.IsStructLike() && r.util.Features().ValueTypeForSIC && !checkRefInterfaceType(r.util, g, t) {
+		if strings.HasPrefix(code, "&") {
+			return code[1:]
+		}
+		return "*" + code // the identifier of a struct constant, which is a pointer
+	}
+	return code
 }
 
 func (r *Resolver) onMap(g *Scope, name string, t *parser.Type, v *parser.ConstValue) (string, error) {
@@ -433,7 +445,7 @@ func (r *Resolver) onMap(g *Scope, name string, t *parser.Type, v *parser.ConstV
 			if err != nil {
 				return "", err
 			}
-			kvs = append(kvs, fmt.Sprintf("%s: %s,", key, val))
+			kvs = append(kvs, fmt.Sprintf("%s: %s,", key, r.elemValue(g, t.ValueType, val)))
 		}
 		if len(kvs) == 0 {
 			return goType + "{}", nil
